@@ -4,9 +4,9 @@ import (
 	"errors"
 	"fmt"
 	"io"
-	"strings"
 	"math/rand"
 	"runtime"
+	"strings"
 	"sync"
 	"sync/atomic"
 	"time"
@@ -196,7 +196,7 @@ func (f *faultStoreFile) Close() error {
 var c11sizes = []int{1, 511, 512, 513, 1500, 5000}
 
 type c11case struct {
-	Part  string `json:"part"` // fault | gated | free
+	Part  string `json:"part"`           // fault | gated | free
 	Mode  uint32 `json:"mode,omitempty"` // mode of the source file (0 = 0644)
 	Size  int    `json:"size,omitempty"`
 	Store string `json:"store,omitempty"` // minimal | full
